@@ -161,6 +161,7 @@ type Outcome struct {
 	Fetches  []FetchCall
 	CacheOps []CacheOp
 	OpenRT   int // RoundTrips still open after return
+	OpenBody int // response bodies still unclosed after return
 	BadReqs  int // OCSP requests that did not name the right certificate
 }
 
@@ -324,6 +325,7 @@ func (env *Env) Run(ctx context.Context) *Outcome {
 	})
 	out.Log = env.Net.Log()
 	out.OpenRT = env.Net.Open()
+	out.OpenBody = env.Net.OpenBodies()
 	if env.Fetcher != nil {
 		out.Fetches = env.Fetcher.Log()
 	}
